@@ -242,6 +242,9 @@ class SSPOC(BaseEstimator):
                 self.classifier.fit(np.matmul(x, self.basis_matrix_inverse_.T), y)
         else:
             self.classifier.fit(np.matmul(x, self.basis_matrix_inverse_.T), y)
+        # The classifier is now trained on basis coordinates; it only counts as
+        # refit on the sensors once update_sensors has refit it below.
+        self.refit_ = False
 
         w = np.squeeze(self.classifier.coef_).T
 
